@@ -34,15 +34,15 @@ func TestMain(m *testing.M) {
 // ---------------------------------------------------------------- base program with slots
 
 type slot struct {
-	id       int
-	stmt     bool
-	indent   int
-	inFunc   bool
-	inLoop   bool // inside a loop of the innermost function (or file)
-	top      bool // directly in the file block (not nested in any statement)
-	depth    int
-	special  string // "lambda-default", "comp-clause", ""
-	lineNo   int    // filled at render time
+	id      int
+	stmt    bool
+	indent  int
+	inFunc  bool
+	inLoop  bool // inside a loop of the innermost function (or file)
+	top     bool // directly in the file block (not nested in any statement)
+	depth   int
+	special string // "lambda-default", "comp-clause", ""
+	lineNo  int    // filled at render time
 }
 
 type base struct {
@@ -229,6 +229,40 @@ var plants = func() []plant {
 					return []int{1}
 				}
 				return []int{0, 1}
+			}},
+		{name: "load-in-toplevel-else", stmt: true, lines: []string{"if G0:", "    pass", "else:", "    load(\"a.star\", zz9 = \"A_DICT\")"}, where: func(s *slot) bool { return s.stmt && s.top }, violates: always,
+			errLines: func(o gen.Opts) []int {
+				if o.TopLevelControl {
+					return []int{3}
+				}
+				return []int{0, 3}
+			}},
+		{name: "load-in-toplevel-elif", stmt: true, lines: []string{"if G0:", "    pass", "elif G0:", "    load(\"a.star\", zz9 = \"A_DICT\")", "else:", "    pass"}, where: func(s *slot) bool { return s.stmt && s.top }, violates: always,
+			errLines: func(o gen.Opts) []int {
+				if o.TopLevelControl {
+					return []int{3}
+				}
+				return []int{0, 2, 3}
+			}},
+		{name: "load-in-nested-else-in-for", stmt: true, lines: []string{"for i9 in [1]:", "    if G0:", "        pass", "    else:", "        load(\"a.star\", zz9 = \"A_DICT\")"}, where: func(s *slot) bool { return s.stmt && s.top }, violates: always,
+			errLines: func(o gen.Opts) []int {
+				if o.TopLevelControl {
+					return []int{4}
+				}
+				return []int{0, 1, 4}
+			}},
+		{name: "load-after-toplevel-if-ok", stmt: true, lines: []string{"if G0:", "    pass", "else:", "    pass", "load(\"a.star\", zz9 = \"A_DICT\")"}, where: func(s *slot) bool { return s.stmt && s.top },
+			violates: func(o gen.Opts) bool { return !o.TopLevelControl }, errLines: func(gen.Opts) []int { return []int{0} }},
+		{name: "break-in-else-of-if-outside-loop", stmt: true, lines: []string{"if a:", "    pass", "else:", "    break"}, where: func(s *slot) bool { return s.stmt && s.inFunc && !s.inLoop }, violates: always,
+			errLines: func(gen.Opts) []int { return []int{3} }},
+		{name: "break-after-loop", stmt: true, lines: []string{"for i9 in [1]:", "    pass", "break"}, where: func(s *slot) bool { return s.stmt && s.inFunc && !s.inLoop }, violates: always,
+			errLines: func(gen.Opts) []int { return []int{2} }},
+		{name: "return-in-toplevel-else", stmt: true, lines: []string{"if G0:", "    pass", "else:", "    return 1"}, where: func(s *slot) bool { return s.stmt && s.top }, violates: always,
+			errLines: func(o gen.Opts) []int {
+				if o.TopLevelControl {
+					return []int{3}
+				}
+				return []int{0, 3}
 			}},
 		{name: "load-in-toplevel-for", stmt: true, lines: []string{"for i9 in [1]:", "    load(\"a.star\", zz9 = \"A_DICT\")"}, where: func(s *slot) bool { return s.stmt && s.top }, violates: always,
 			errLines: func(o gen.Opts) []int {
@@ -514,10 +548,11 @@ func TestPropCatalogue(t *testing.T) {
 // ---------------------------------------------------------------- recursion
 
 type RecCase struct {
-	N     int      `json:"n"`     // number of functions (1..4)
-	Back  int      `json:"back"`  // the last function calls back to function Back
-	Edges []string `json:"edges"` // edge kind from function i to its successor: plain lambda twin sorted min max comp
-	Depth int      `json:"depth"`
+	ViaCall bool     `json:"via_call,omitempty"` // f0 is entered by starlark.Call on a fresh thread (it is the bottom frame), not from <toplevel>
+	N       int      `json:"n"`                  // number of functions (1..4)
+	Back    int      `json:"back"`               // the last function calls back to function Back
+	Edges   []string `json:"edges"`              // edge kind from function i to its successor: plain lambda twin sorted min max comp
+	Depth   int      `json:"depth"`
 }
 
 func edgeExpr(kind, callee string) string {
@@ -553,7 +588,9 @@ func recProgram(c RecCase) (string, []string, bool) {
 			fmt.Fprintf(&sb, "def f%d(d):\n    t(\"enter\", %d)\n    if d <= 0:\n        return 0\n    return %s\n", i, i, edgeExpr(c.Edges[i], callee))
 		}
 	}
-	fmt.Fprintf(&sb, "R = f0(%d)\n", c.Depth)
+	if !c.ViaCall {
+		fmt.Fprintf(&sb, "R = f0(%d)\n", c.Depth)
+	}
 	// model with recursion off: follow the path until active code would be re-entered
 	var off []string
 	active := map[string]bool{}
@@ -598,7 +635,13 @@ func checkRecursion(c RecCase) error {
 		tr := &host.Trace{}
 		pre, th := host.Env(tr, "c09rec")
 		th.SetMaxExecutionSteps(1000000)
-		_, err := starlark.ExecFileOptions(&syntax.FileOptions{Recursion: rec}, th, "rec.star", src, pre)
+		g, err := starlark.ExecFileOptions(&syntax.FileOptions{Recursion: rec}, th, "rec.star", src, pre)
+		if err == nil && c.ViaCall {
+			// the usual embedding pattern: load a module, then call one of its functions from Go
+			th2 := &starlark.Thread{Name: "c09call", Print: th.Print}
+			th2.SetMaxExecutionSteps(1000000)
+			_, err = starlark.Call(th2, g["f0"], starlark.Tuple{starlark.MakeInt(c.Depth)}, nil)
+		}
 		return tr.Events, err
 	}
 	got, err := run(false)
@@ -690,8 +733,10 @@ func TestPropRecursion(t *testing.T) {
 						x /= len(edgeKinds)
 					}
 					for _, depth := range []int{0, 1, 2*n + 1} {
-						if !yield(RecCase{N: n, Back: back, Edges: edges, Depth: depth}) {
-							return
+						for _, via := range []bool{false, true} {
+							if !yield(RecCase{N: n, Back: back, Edges: edges, Depth: depth, ViaCall: via}) {
+								return
+							}
 						}
 					}
 				}
